@@ -2,9 +2,9 @@ package rules
 
 import (
 	"fmt"
-	"sort"
 	"go/token"
 	"go/types"
+	"sort"
 	"strings"
 
 	"golang.org/x/tools/go/ssa"
@@ -414,8 +414,8 @@ func (e *Engine) slice(fi *fnInfo, st *State, x *ssa.Slice) AbsVal {
 		label := fi.labels[x]
 		// bounds as (lo,hi) intervals relative to the slice's own length interval
 		type bnd struct {
-			lo, hi int  // value bounds
-			slack  int  // proven lower bound of len - value (when derived from a mark)
+			lo, hi int // value bounds
+			slack  int // proven lower bound of len - value (when derived from a mark)
 			hasSl  bool
 		}
 		get := func(v ssa.Value, def int) (bnd, bool) {
@@ -705,6 +705,9 @@ func (e *Engine) call(fi *fnInfo, st *State, in *ssa.Call) []*State {
 	case "ToLower":
 		// in-place case folding of (part of) the current lexeme
 		if a := e.eval(st, cc.Args[0]); a.k == vSlice {
+			why, allowed := inPlaceAllowed[fnLabel(fi.fn)+" ToLower"]
+			e.check(st, "R-INPLACE", fnLabel(fi.fn)+" lower-cases input bytes in place", in.Pos(), allowed, "parse.ToLower is applied directly to a slice of the input buffer outside the audited sites (tag names, attribute names, end tags): the caller's input and the returned tokens are altered; copy first (parse.Copy)")
+			_ = why
 			e.staleBehind(st)
 			setRes(st, a)
 		} else {
@@ -714,6 +717,22 @@ func (e *Engine) call(fi *fnInfo, st *State, in *ssa.Call) []*State {
 		setRes(st, top)
 	}
 	return []*State{st}
+}
+
+// Sites that may rewrite input bytes in place (property C02: only the case of tag and
+// attribute names in HTML and tab/newline -> space inside quoted XML attribute values).
+var inPlaceAllowed = map[string]string{
+	"(*html.Lexer).shiftStartTag ToLower":  "tag name is lower-cased in place",
+	"(*html.Lexer).shiftAttribute ToLower": "attribute name is lower-cased in place",
+	"(*html.Lexer).shiftEndTag ToLower":    "end tag token is lower-cased in place",
+	"(*xml.Lexer).shiftAttribute store":    "tab/newline/CR inside a quoted attribute value becomes a space",
+}
+
+// Scanners that deliberately leave the cursor where the scan failed.
+var restoreExceptions = map[string]string{
+	"(*css.Lexer).consumeUnquotedURL":   "on failure the caller continues from the failure point with consumeRemnantsBadURL (one BadURL token up to the matching ')')",
+	"(*js.Lexer).consumeRegExpToken":    "its only caller RegExp() turns the failure into the error 'unexpected EOF or newline' immediately",
+	"(*json.Parser).consumeStringToken": "documented: the caller picks up the movement to tell NUL from EOF; the failure is turned into an error",
 }
 
 // reaches: does fn (transitively) perform cursor operations? Functions the
@@ -1229,12 +1248,40 @@ func (e *Engine) summaries(callee *ssa.Function, st *State, args []AbsVal) []sum
 	exits := e.run(callee, proj, args)
 	var out []summary
 	for _, x := range exits {
+		// R-RESTORE: a scanner that reports failure without recording an error leaves the cursor where it started
+		if len(x.ret) == 1 && x.at != nil && x.st.errSet != 1 && !x.st.havoc {
+			if c, ok := x.ret[0].constInt(); ok && c == 0 && isFailureResult(callee) {
+				key := fnLabel(callee) + " failure restores the position"
+				if _, exc := restoreExceptions[fnLabel(callee)]; !exc {
+					e.check(x.st, "R-RESTORE", key, x.at.Pos(), x.st.dispLo == 0 && x.st.dispHi == 0,
+						fmt.Sprintf("the scanner returns its failure value after a net cursor displacement in [%s,%s]: the bytes moved over end up in the next token (or are rescanned) although the caller was told nothing was consumed", infs(x.st.dispLo), infs(x.st.dispHi)))
+				}
+			}
+		}
 		// callee-local values are of no use to the caller
 		x.st.vals = map[ssa.Value]*AbsVal{}
 		out = append(out, summary{st: x.st, ret: x.ret, at: x.at})
 	}
 	m[sig] = out
 	return out
+}
+
+// isFailureResult: the function's single result is a bool (false = failure) or a token type (0 = ErrorToken).
+func isFailureResult(fn *ssa.Function) bool {
+	res := fn.Signature.Results()
+	if res.Len() != 1 {
+		return false
+	}
+	t := res.At(0).Type()
+	if b, ok := t.Underlying().(*types.Basic); ok {
+		if b.Kind() == types.Bool {
+			return strings.HasPrefix(fn.Name(), "consume")
+		}
+		if n, named := t.(*types.Named); named && n.Obj().Name() == "TokenType" {
+			return strings.HasPrefix(fn.Name(), "consume")
+		}
+	}
+	return false
 }
 
 func absSig(v AbsVal) string {
